@@ -48,6 +48,7 @@ SplitVerdicts(r) ==
   IN IF r.raised # "" THEN {"C12:raised"}
      ELSE
      (IF r.after # P THEN {"C12:original-changed"} ELSE {})
+     \cup (IF ~r.independent THEN {"C12:parts-share-state-with-each-other-or-the-original"} ELSE {})
      \cup (IF n < 1 \/ n > r.k \/ (r.k <= Size(lo, hi) /\ n # r.k) THEN {"C12:number-of-parts"} ELSE {})
      \cup (IF \E i \in 1..n : \/ r.parts[i].vidx # P.vidx \/ r.parts[i].voff # P.voff \/ r.parts[i].props # P.props
                                \/ \E j \in 1..NDom(P) : j # d /\ r.parts[i].doms[j] # P.doms[j]
